@@ -30,10 +30,23 @@ const (
 	// terminators of init code only
 	TReturnCode // RETURN one zero byte: deploys runtime code "STOP"
 	TReturnBig  // RETURN MaxCodeSize+1 bytes: oversize
+	TReturnDep  // RETURN depositN zero bytes: a runtime code whose deposit costs 200*depositN gas
 	numTerm
 )
 
-var termName = []string{"STOP", "RETURN", "REVERT", "INVALID", "OOG", "SELFDESTRUCT(self)", "SELFDESTRUCT(other)", "RETURN(code)", "RETURN(oversize)"}
+var termName = []string{"STOP", "RETURN", "REVERT", "INVALID", "OOG", "SELFDESTRUCT(self)", "SELFDESTRUCT(other)", "RETURN(code)", "RETURN(oversize)", "RETURN(300-byte code)"}
+
+// depositN: size of the runtime code returned by TReturnDep.  Its deposit
+// costs 200*300 = 60000 gas: more than what a frame entered with the gDep
+// allotment (90000) has left after paying CREATE (32000) and the init code's
+// storage write and log, far less than what is left of an unlimited allotment.
+const (
+	depositN      = 300
+	createDataGas = 200 // params.CreateDataGas: the protocol constant, restated (the reference must not read it from the code under test)
+	maxCodeSize   = 24576
+)
+
+var depositCode = make([]byte, depositN)
 
 type Kind int
 
@@ -64,10 +77,16 @@ const (
 	gAll  = 0 // everything (63/64)
 	gZero = 1 // 0 => the stipend-sized allotment of this chain's callGas
 	gLim  = 2 // a mid-sized fixed allotment (enough for one cheap write, not two)
+	gDep  = 8 // a creation-sized allotment: pays CREATE and an init code with a storage write and a log, but not the deposit of depositN bytes afterwards
 )
 
-var gasClassValue = []uint64{0xffffffffffffffff, 0, 22000, 700, 5200, 12000, 34000, 60000}
-var gasClassName = []string{"all", "0", "22000", "700", "5200", "12000", "34000", "60000"}
+var gasClassValue = []uint64{0xffffffffffffffff, 0, 22000, 700, 5200, 12000, 34000, 60000, 90000}
+var gasClassName = []string{"all", "0", "22000", "700", "5200", "12000", "34000", "60000", "90000"}
+
+// txGasDep: the limited gas class of a creation TRANSACTION whose init code
+// ends in TReturnDep: never enough for the deposit (60000) on top of the
+// RETURN itself.
+const txGasDep = 60000
 
 // init codes
 const (
@@ -75,9 +94,10 @@ const (
 	iRevert
 	iOversize
 	iInvalid
+	iDeposit // SSTORE, LOG1, then RETURN(depositN bytes): fails AT CODE DEPOSIT when less than 200*depositN gas is left, succeeds otherwise
 )
 
-var initName = []string{"ok", "reverting", "oversize", "invalid"}
+var initName = []string{"ok", "reverting", "oversize", "invalid", "storing+logging, 300-byte code"}
 
 type Action struct {
 	K      Kind `json:"k"`
@@ -124,14 +144,24 @@ func (b Body) String() string {
 
 // Program: the bodies of K0..K2 and how the transaction enters.
 type Program struct {
-	Bodies [3]Body `json:"bodies"`
-	Create bool    `json:"create_entry"` // true: the transaction is runtime.Create with K0's body as init code
+	Bodies [3]Body   `json:"bodies"`
+	Create bool      `json:"create_entry"`     // true: the transaction is runtime.Create with K0's body as init code
+	TxGas  [2]uint64 `json:"tx_gas,omitempty"` // gas limit of transaction 1 / 2 (0 = the huge default allotment)
 }
 
 func (p Program) String() string {
 	e := "call K0"
 	if p.Create {
 		e = "create(init=K0 body)"
+	}
+	if p.TxGas != [2]uint64{} {
+		g := func(v uint64) string {
+			if v == 0 {
+				return "unlimited"
+			}
+			return fmt.Sprint(v)
+		}
+		e += fmt.Sprintf(" [tx gas %s/%s]", g(p.TxGas[0]), g(p.TxGas[1]))
 	}
 	return fmt.Sprintf("%s | K0{%s} K1{%s} K2{%s}", e, p.Bodies[0], p.Bodies[1], p.Bodies[2])
 }
@@ -243,6 +273,11 @@ func compileTerm(a *asm, t Term) {
 		a.pushN([]byte{0x60, 0x01}) // 24577
 		a.push1(0)
 		a.op(0xf3)
+	case TReturnDep:
+		// from offset 32: word 0 of the memory may hold an init code written by an earlier CREATE action
+		a.pushN([]byte{byte(depositN >> 8), byte(depositN & 0xff)})
+		a.push1(32)
+		a.op(0xf3)
 	}
 }
 
@@ -259,6 +294,9 @@ func initBody(kind int) Body {
 		b.Term = TReturnBig
 	case iInvalid:
 		b.Term = TInvalid
+	case iDeposit:
+		b.Acts = append(b.Acts, Action{K: ALog})
+		b.Term = TReturnDep
 	}
 	return b
 }
@@ -266,10 +304,14 @@ func initBody(kind int) Body {
 // compile turns a body into byte code.  codeIdx selects the tag range
 // (0..2 = K0..K2, 8+ = init codes).
 func compile(b Body, codeIdx int) *Code {
+	return compileTags(b, func(pos int) byte { return tagOf(codeIdx, pos) })
+}
+
+func compileTags(b Body, tagAt func(pos int) byte) *Code {
 	c := &Code{Body: b}
 	a := &asm{}
 	for pos, act := range b.Acts {
-		tag := tagOf(codeIdx, pos)
+		tag := tagAt(pos)
 		c.Tags = append(c.Tags, tag)
 		var initc *Code
 		switch act.K {
@@ -304,8 +346,10 @@ func compile(b Body, codeIdx int) *Code {
 			a.op([]byte{0xf1, 0xf2, 0xf4, 0xfa}[act.K-ACall])
 			a.op(0x50) // POP
 		case ACreate, ACreate2:
-			// init codes get their own tag range: 0x80 + the creator's tag
-			initc = compile(initBody(act.Init), 0).retag(0x80 | tag)
+			// init codes get their own tag ranges: 0x80 + the creator's tag
+			// for their first action, 0x40 + the creator's tag for the second
+			ctag := tag
+			initc = compileTags(initBody(act.Init), func(pos int) byte { return []byte{0x80, 0x40}[pos] | ctag })
 			init := initc.Bytes
 			if len(init) > 32 {
 				panic("init code too long")
@@ -334,22 +378,6 @@ func compile(b Body, codeIdx int) *Code {
 	c.TermPC = len(a.b) - 1
 	c.Bytes = a.b
 	return c
-}
-
-// retag rewrites the single tag of an init code (position 0 of code index 0).
-func (c *Code) retag(tag byte) *Code {
-	old := tagOf(0, 0)
-	out := append([]byte{}, c.Bytes...)
-	// the tag is the operand of the first PUSH1 after GASPRICE
-	if len(out) >= 3 && out[0] == 0x3a && out[1] == 0x60 && out[2] == old {
-		out[2] = tag
-	} else {
-		panic("retag: unexpected init layout")
-	}
-	n := *c
-	n.Bytes = out
-	n.Tags = []byte{tag}
-	return &n
 }
 
 // stopCode is the runtime code deployed by init "ok".
